@@ -97,10 +97,11 @@ ConnRef::ConnRef(Router *router, const ConnEnd& src, const ConnEnd& dst,
     m_id = m_router->assignId(id);
     m_route.clear();
 
-    // Set endpoint values.
-    setEndpoints(src, dst);
-
     m_reroute_flag_ptr = m_router->m_conn_reroute_flags.addConn(this);
+
+    // Set endpoint values.  (With transactions off this routes the connector
+    // straight away, which needs the reroute flag registered above.)
+    setEndpoints(src, dst);
 }
 
 
